@@ -169,8 +169,8 @@ def wellformed(g):
     for r in g.rules:
         for e in peg.rule_exprs(r):
             for x in peg.walk(e):
-                if x[0] == 'rep' and peg.nullable(x[1], rn):
-                    return False
+                if x[0] == 'rep' and peg.nullable(x[1], rn) and (x[3] is None or peg.uses_backtrack(x[1], rn)):
+                    return False      # (bounded repetitions may repeat something that matches nothing)
                 if x[0] == 'skip' and any(peg.nullable(c, rn) for c in x[1]):
                     return False
                 if x[0] == 'sep' and peg.nullable(('seq', [x[1], x[2]]), rn):
